@@ -42,6 +42,11 @@ struct Pb {
     /// Some(d) = discovery mode: branch only on the first d decisions, take choice 0 afterwards
     discover: Option<usize>,
     stop_all: Arc<std::sync::atomic::AtomicBool>,
+    /// fair mode (Musuvathi/Qadeer, "Fair stateless model checking"): a thread that yields (polling loop, sleep) may not run again before
+    /// every thread that is runnable at that moment has been scheduled once; needed when SEVERAL threads poll at the same time, which
+    /// would otherwise starve the workers they are waiting for on the default schedule. `waits_for[t]` = threads that must run before t.
+    fair: bool,
+    waits_for: BTreeMap<usize, std::collections::BTreeSet<usize>>,
 }
 
 impl Scheduler for Pb {
@@ -73,6 +78,7 @@ impl Scheduler for Pb {
         self.started = true;
         self.step = 0;
         self.preempt = 0;
+        self.waits_for.clear();
         sh.current.clear();
         sh.executions += 1;
         Some(Schedule::new(0))
@@ -89,6 +95,22 @@ impl Scheduler for Pb {
         order.extend(others);
         if cur_enabled && yielding && order.is_empty() {
             order.push(current.unwrap());
+        }
+        if self.fair {
+            let runnable_ids: std::collections::BTreeSet<usize> = runnable.iter().map(|t| usize::from(t.id())).collect();
+            if let (Some(c), true) = (current, yielding) {
+                let c = usize::from(c);
+                let others: std::collections::BTreeSet<usize> = runnable_ids.iter().copied().filter(|t| *t != c).collect();
+                self.waits_for.insert(c, others);
+            }
+            let allowed: Vec<TaskId> = order
+                .iter()
+                .copied()
+                .filter(|t| self.waits_for.get(&usize::from(*t)).map_or(true, |w| w.iter().all(|u| !runnable_ids.contains(u))))
+                .collect();
+            if !allowed.is_empty() {
+                order = allowed;
+            }
         }
         let free_switch = !cur_enabled || yielding;
         let n_allowed = if !free_switch && self.preempt >= self.bound { 1 } else { order.len() };
@@ -132,6 +154,12 @@ impl Scheduler for Pb {
                 order.iter().map(|t| usize::from(*t)).collect::<Vec<_>>(),
                 self.preempt
             );
+        }
+        if self.fair {
+            let chosen = usize::from(order[choice]);
+            for w in self.waits_for.values_mut() {
+                w.remove(&chosen);
+            }
         }
         self.step += 1;
         let mut sh = self.shared.lock().unwrap();
@@ -187,6 +215,8 @@ pub struct ExploreOpts {
     pub stop_all: Arc<std::sync::atomic::AtomicBool>,
     /// called after every completed execution with its choice list (used by the discovery pass)
     pub on_execution: Option<Arc<dyn Fn(&[usize]) + Send + Sync>>,
+    /// see `Pb::fair`
+    pub fair: bool,
 }
 
 pub fn explore_with<F>(bound: usize, max_execs: u64, deadline: Instant, fixed: Option<Vec<usize>>, opts: ExploreOpts, body: F) -> Explored
@@ -211,6 +241,8 @@ where
         prefix: opts.prefix.clone(),
         discover: opts.discover,
         stop_all: opts.stop_all.clone(),
+        fair: opts.fair,
+        waits_for: BTreeMap::new(),
     };
     let on_execution = opts.on_execution.clone();
     let runner = shuttle::Runner::new(pb, config());
